@@ -73,6 +73,8 @@ class Kernel:
         self.crashed_at = None
         self._local = threading.local()
         self.reach = {}
+        self.focus_fn = None                    # name of ONE function whose lines are pre-empted eagerly
+        self.p_focus = 0.35
         self.shim = shim                        # the instance's simulated ``threading`` module
         self.blocked = {}                       # task id -> lock it waits for
         self.deadlock = None
@@ -126,7 +128,7 @@ class Kernel:
         return nth
 
     # ---------------------------------------------------------------- scheduler
-    def yield_point(self, line=False):
+    def yield_point(self, line=False, focus=False):
         tasks = self.tasks
         if tasks is None or len(tasks) < 2:
             return
@@ -135,6 +137,8 @@ class Kernel:
         target = None
         if self.gen_rng is not None:
             p = self.p_line if line else self.p_point
+            if focus:
+                p = max(p, self.p_focus)
             if p and self.gen_rng.random() < p:
                 others = [t.tid for t in tasks if not t.done and t.tid != me and not self._is_blocked(t.tid)]
                 if others:
@@ -344,7 +348,7 @@ class Kernel:
                     raise LineCrashBase('line-crash')
                 raise LineCrash('line-crash')
             if self.tasks is not None and (self.p_line or self._line_switches):
-                self.yield_point(line=True)
+                self.yield_point(line=True, focus=self.focus_fn is not None and frame.f_code.co_name == self.focus_fn)
         return self._ltrace
 
 
